@@ -125,23 +125,23 @@ OPTIONS = {
     "nesting.max_nesting_depth": {
         "section": "nesting", "option": "max_nesting_depth", "cmd": "nesting", "cli": "--max-depth",
         "vals": {1: 1, 2: 2, 3: 3, 4: 5, 5: 6, 11: 7, 12: 8, 13: 9, 14: 10}, "lang": "python",
-        "files": {"probe.py": nest_probe()}, "extra": {}, "invalid": [0, -3]},
+        "files": {"probe.py": nest_probe()}, "extra": {}, "invalid": [0, -3], "default": 4},
     "nesting.max_nesting_depth@typescript": {
         "section": "nesting", "option": "max_nesting_depth", "cmd": "nesting", "cli": "--max-depth",
         "vals": {1: 1, 2: 2, 3: 3, 4: 5, 5: 6, 11: 7, 12: 8, 13: 9, 14: 10}, "lang": "typescript",
-        "files": {"probe.ts": nest_probe_ts()}, "extra": {}, "invalid": []},
+        "files": {"probe.ts": nest_probe_ts()}, "extra": {}, "invalid": [], "default": 4},
     "srp.max_methods": {
         "section": "srp", "option": "max_methods", "cmd": "srp", "cli": "--max-methods",
         "vals": {1: 1, 2: 2, 3: 3, 4: 4, 5: 5, 11: 6, 12: 8, 13: 9, 14: 10}, "lang": "python",
-        "files": {"probe.py": srp_probe()}, "extra": {"max_loc": 500, "check_keywords": False}, "invalid": [0, -1]},
+        "files": {"probe.py": srp_probe()}, "extra": {"max_loc": 500, "check_keywords": False}, "invalid": [0, -1], "default": 7},
     "collection-pipeline.min_continues": {
         "section": "collection-pipeline", "option": "min_continues", "cmd": "pipeline", "cli": "--min-continues",
         "vals": {1: 2, 2: 3, 3: 4, 4: 5, 5: 6}, "lang": None,
-        "files": {"probe.py": pipeline_probe()}, "extra": {}, "invalid": [0]},
+        "files": {"probe.py": pipeline_probe()}, "extra": {}, "invalid": [0], "default": 1},
     "dry.min_duplicate_lines": {
         "section": "dry", "option": "min_duplicate_lines", "cmd": "dry", "cli": "--min-lines",
         "vals": {1: 4, 2: 5, 3: 6, 4: 7, 5: 8}, "lang": None,
-        "files": dry_probe(), "extra": {"enabled": True}, "invalid": [0, -2]},
+        "files": dry_probe(), "extra": {"enabled": True}, "invalid": [0, -2], "default": 3},
 }
 
 # (documented section, command, trigger files from the kit)
@@ -221,9 +221,9 @@ def mkroot(j: dict) -> Path:
 
 # companion file of another language (Config.tla `companion`): its language, its content, and the value its own
 # per-language override carries (a value no reference run uses: if it leaks into the probe, no reference matches)
-COMPANION = {"nesting.max_nesting_depth": ("typescript", "ts", nest_probe_ts, 4),
-             "nesting.max_nesting_depth@typescript": ("python", "py", nest_probe, 4),
-             "srp.max_methods": ("typescript", "ts", srp_probe_ts, 7)}
+COMPANION = {"nesting.max_nesting_depth": ("typescript", "ts", nest_probe_ts, 11),
+             "nesting.max_nesting_depth@typescript": ("python", "py", nest_probe, 11),
+             "srp.max_methods": ("typescript", "ts", srp_probe_ts, 11)}
 
 
 def sect(o: dict, vid: int, with_lang: bool, companion: tuple | None = None) -> dict:
@@ -261,7 +261,8 @@ def job_case(j: dict) -> dict:
         else:
             pre += ["--config", str(root.parent / fn)]
     if c["cli"]:
-        pre += [o["cli"], str(o["vals"][5])]
+        # the option is given either with a value of its own or with the value that happens to be the built-in default
+        pre += [o["cli"], str(o["default"] if c.get("cliDefault") else o["vals"][5])]
     # explicit list in the given order or the directory (walk order): both are one run over both languages
     return run_cmd(root, o["cmd"], pre, targets if (comp is None or j.get("listed", True)) else ["."], group_pre,
                    only=set(o["files"]))
@@ -311,7 +312,7 @@ def job_invalid(j: dict) -> dict:
 def run(chk) -> None:
     quick = chk.tier == "quick"
     drive.preload()
-    chk.rule = ("(a) Config.tla cases (project carriers x --config x command-line option x language override x file of another language linted before/after in the same run x "
+    chk.rule = ("(a) Config.tla cases (project carriers x --config x command-line option (a value of its own / the built-in default) x language override x file of another language linted before/after in the same run x "
                 "section spelling; exhaustive, 192+ cases) per graded option, effective value measured against "
                 "reference runs; (b) enabled:false and switches per linter section x spelling x carrier; "
                 "(c) monotone sweeps; (d) invalid values / unparsable files per carrier; non-trivial = at least "
@@ -480,8 +481,8 @@ def run(chk) -> None:
 
     for rec, (case, _) in zip(records, meta):
         c = case.get("case") if case["kind"] == "case" else None
-        for f in ("yaml", "json", "pyproject", "cli", "lang"):
-            rec[f] = bool(c[f]) if c else False
+        for f in ("yaml", "json", "pyproject", "cli", "lang", "cliDefault"):
+            rec[f] = bool(c.get(f, False)) if c else False
         rec["companion"] = c.get("companion", "none") if c else "none"
         rec["dash"] = c["dash"] if c else "none"
         rec["spelling"] = c["spelling"] if c else "hyphen"
@@ -497,6 +498,8 @@ def run(chk) -> None:
             observed = next((r["observed"] for r, (cc, _) in zip(records, meta) if cc is case), None)
             if c.get("companion", "none") != "none":
                 key["companion"] = c["companion"]
+            if c.get("cliDefault"):
+                key["cli_value"] = "built-in default"
             key.update({"option": case["option"], "spelling": c["spelling"], "cli": c["cli"], "lang": c["lang"],
                         "config_placement": ("group" if case["group_level"] else "command") if c["dash"] != "none" else "none",
                         "winner": c["effective"], "observed": observed,
